@@ -513,6 +513,50 @@ Proof.
   intros F T. apply G in F. destruct F as [_ F]. rewrite T, app_nil_r in F. exact F.
 Qed.
 
+Lemma echo_open_stays_open : forall sch e,
+  forallb (fun s => negb (is_closein s)) sch = true ->
+  wclosed (ea e) = false -> wclosed (ea (erun sch e)) = false.
+Proof.
+  induction sch as [|s r IH]; intros e Hs W; cbn [erun]; auto.
+  cbn [forallb] in Hs. apply andb_true_iff in Hs. destruct Hs as [Hs1 Hs2].
+  apply IH; auto.
+  destruct s as [k| |k|k| |k]; try discriminate; unfold echo_step.
+  - rewrite W. destruct (pipe_write (ea e) (firstn k (etodo e))) as [a' r0] eqn:E.
+    destruct r0; auto. cbn [ea].
+    unfold pipe_write in E. destruct (firstn k (etodo e)).
+    + injection E as <- _. exact W.
+    + destruct (rclosed (ea e)); [discriminate|].
+      destruct (Nat.min _ _ =? 0); [discriminate|]. injection E as <- _. exact W.
+  - destruct (wclosed (eb e)); auto.
+    destruct (pipe_read (ea e) k) as [a' r0] eqn:E. destruct r0; auto. cbn [ea].
+    apply pipe_read_spec in E. destruct E as (_ & _ & _ & Hw & _). congruence.
+  - destruct (wclosed (eb e)); auto.
+    destruct (pipe_write (eb e) (firstn k (ebuf e))) as [b' r0]. destruct r0; auto.
+  - destruct (ein_eof e && is_nil (ebuf e)); auto.
+  - destruct (pipe_read (eb e) k) as [b' r0]. destruct r0; auto.
+Qed.
+
+(* a child that copies its input to the end (cat) does not exit, and the parent
+   never sees end of file on its output, unless the parent's end of the child's
+   stdin gets closed: a wait that consumes the Child together with its ChildStdin
+   must close it, or it never returns *)
+Lemma echo_needs_close : forall (capa capb : nat) (data : list byte) (sch : list estep),
+  forallb (fun s => negb (is_closein s)) sch = true ->
+  let e := erun sch (echo_init capa capb data) in
+  ein_eof e = false /\ wclosed (eb e) = false /\ eeof e = false.
+Proof.
+  intros capa capb data sch Hs e.
+  assert (I : echo_inv capa capb data e) by (apply erun_inv, echo_init_inv).
+  assert (W : wclosed (ea e) = false) by (apply echo_open_stays_open; auto).
+  destruct I as (_ & _ & _ & _ & _ & _ & _ & Hin & Hbw & Hee).
+  assert (A : ein_eof e = false).
+  { destruct (ein_eof e); auto. destruct Hin as [F _]; auto. congruence. }
+  assert (B : wclosed (eb e) = false).
+  { destruct (wclosed (eb e)); auto. destruct Hbw as [F _]; auto. congruence. }
+  repeat split; auto.
+  destruct (eeof e); auto. destruct Hee as [F _]; auto. congruence.
+Qed.
+
 (* ====================================================================== *)
 (* waiting for the child                                                    *)
 
